@@ -78,7 +78,7 @@ def runHeap : RM String := do
     else if op == 3 then
       let x ← nextN
       let c ← nextI
-      if x < size ∧ h.colorOf x = WHITE then
+      if x < size ∧ (h.colorOf x = WHITE ∨ h.colorOf x = BLACK) then   -- a removed element may be inserted again
         let (h', ok) := (h.setCost x c).insert x
         h := h'
         out := out.push (heapObs h (if ok then 1 else 0))
